@@ -173,6 +173,14 @@ def run(prog: Program, rep: Report, tier: str) -> None:
     # no draw cached at construction
     cached = [n for n in walk_no_nested(init.node) if isinstance(n, ast.Call) and isinstance(n.func, ast.Attribute) and n.func.attr in ("normal", "standard_normal", "random")]
     rep.check("R11.3", init.qual, "draws at construction time", not cached, what_bad="random numbers drawn once in __init__ would be reused every step", what_ok="none", loc=init.loc())
+    rep.rule("R11.7", "the metric that scales the random step is computed from the positions handed to Grid.metric in this call, on every path (no memo keyed on less than the arguments)", 1)
+    from .c14 import call_attribute_freshness
+
+    sub = Report(pid="C11")
+    call_attribute_freshness(prog, sub, "R14.12", roles=("grid",))
+    for o in sub.obligations:
+        if o.func.endswith(".metric"):
+            rep.add("R11.7", o.func, o.construct, o.verdict == "ok" if o.verdict != "undecided" else None, o.what, o.loc)
     from ..share import share
 
     share(prog, rep, "C18", ("R18.6",), "R11.5", "a version-1 configuration hands the diffusion coefficients to the tracker keys they belong to", 1, only=lambda o: "diffusion" in o.construct.lower() or "numerics" in o.construct.lower())
